@@ -228,8 +228,40 @@ func knownClass(sys semver.System, r result, A, B string) string {
 		if err != nil {
 			return ""
 		}
-		for _, m := range append(spanMins(sys, A), spanMins(sys, B)...) {
-			if mv, err := sys.Parse(m); err == nil && mv.Compare(rv) == 0 {
+		// The gap is swallowed when canonicalisation (of an operand or of the
+		// result) merges a span ending just below the release with the span
+		// that starts at it: some alternative of A or B has a span starting at
+		// the release, and the printed intersection has a span that starts at a
+		// lower release and runs across it.
+		startsThere := false
+		for _, X := range []string{A, B} {
+			for _, alt := range append(strings.Split(X, "||"), X) {
+				for _, m := range spanMins(sys, alt) {
+					if mv, err := sys.Parse(m); err == nil && mv.Compare(rv) == 0 {
+						startsThere = true
+					}
+				}
+			}
+		}
+		if !startsThere {
+			return ""
+		}
+		i := strings.Index(r.observed, "A∩B={")
+		if i < 0 {
+			return ""
+		}
+		res := r.observed[i+len("A∩B="):]
+		if j := strings.IndexByte(res, '}'); j >= 0 {
+			res = res[:j+1]
+		}
+		for _, m := range spanBoundsRE.FindAllStringSubmatch(res, -1) {
+			lo, hi := m[1], m[2]
+			if k := strings.IndexAny(lo, "-+"); k > 0 {
+				lo = lo[:k]
+			}
+			lov, err1 := sys.Parse(lo)
+			hiv, err2 := sys.Parse(strings.NewReplacer("∞", "999999999").Replace(hi))
+			if err1 == nil && err2 == nil && lov.Compare(rv) < 0 && rv.Compare(hiv) <= 0 {
 				return "InclusiveMergeAcrossPrereleaseGap"
 			}
 		}
